@@ -139,7 +139,7 @@ def run_valid(ctx, pydsdl, ns, seed, orders, workdir):
 
 
 ERROR_SHAPES = ["missing-name", "missing-version", "self", "cycle2", "cycle3", "case-only", "duplicate-in-lookups", "lookup-not-given", "older-minor-only",
-                "relative-in-other-namespace", "self-with-namesake", "cycle2-with-namesake", "cycle3-with-namesake"]
+                "relative-in-other-namespace", "self-with-namesake", "cycle2-with-namesake", "cycle3-with-namesake", "duplicate-in-one-root", "duplicate-in-one-root"]
 
 
 def make_error(rng, ns0, shape):
@@ -215,6 +215,23 @@ def make_error(rng, ns0, shape):
                          "kind": "msg", "sealed": True, "extent": None, "deprecated": False, "extra": []})
         d["refs"].append({"text": "dup.X.1.0"})
         lookups = lookups + [r1, r2]
+    elif shape == "duplicate-in-one-root":
+        # ONE directory tree holds two files that define the same full name and version (with and without a port-ID prefix,
+        # or .dsdl next to .uavcan); a reference to that type is ambiguous
+        o = rng.choice([x for x in defs if x is not d and x["kind"] == "msg" and GN.full_name(ns, x) != GN.full_name(ns, d)] or [None])
+        if o is None:
+            return None
+        twin = copy.deepcopy(o)
+        twin["id"] = 98000
+        twin["refs"] = []
+        if rng.random() < 0.5 and o["ext"] == ".dsdl":
+            twin["ext"] = ".uavcan"
+        else:
+            twin["port"] = 7123 if o.get("port") is None else None
+        defs.append(twin)
+        d["refs"].append({"text": "%s.%d.%d" % (GN.full_name(ns, o), o["ver"][0], o["ver"][1])})
+        if o["root"] != 0 and o["root"] not in lookups:
+            return None
     elif shape == "lookup-not-given":
         if len(ns["roots"]) < 2:
             return None
